@@ -1500,6 +1500,10 @@ def rule_concat(repo, col):
         elif recv == '%s[0]' % p and arg0 is not None and \
                 arg0.startswith('%s[' % p):
             verdicts.append((False, call, 'rest is `%s`' % arg0))
+        elif recv.startswith('%s[' % p) and recv != '%s[0]' % p:
+            verdicts.append((False, call, 'the receiver is `%s`, not the '
+                             'first table: the result does not start with '
+                             'the first operand\'s ids' % recv))
         else:
             verdicts.append((None, call, 'form not recognised'))
     if not c:
